@@ -69,4 +69,22 @@ TraceSpec == TraceInit /\ [][TraceNext]_tvars
 
 \* a trace that is not fully consumed and cannot take its next event has been rejected
 NotStuck == More => ENABLED TraceNext
+
+(***************************************************************************)
+(* History independence ACROSS histories.  All traces of a run start from   *)
+(* objects with the same values and share one registry of value ids, so the *)
+(* same request <<function, argument values>> may occur after different     *)
+(* histories (and in different worker processes): the answers must agree.   *)
+(* This is a constant-level statement about the recorded traces (ASSUME in  *)
+(* the generated model).                                                    *)
+(***************************************************************************)
+IsCall(e) == e.op \in {"call", "raise"}
+ArgVals(e) == [i \in 1..Len(ArgsOf[e.f]) |-> ObjVal(e.pre, ArgsOf[e.f][i])]
+CallsOf(f) == {<<t, i>> \in UNION {{<<t, i>> : i \in 1..Len(Traces[t])} : t \in 1..Len(Traces)} :
+                 IsCall(Traces[t][i]) /\ Traces[t][i].f = f}
+CrossHistory ==
+  \A f \in Funcs : \A x \in CallsOf(f), y \in CallsOf(f) :
+     LET ex == Traces[x[1]][x[2]]
+         ey == Traces[y[1]][y[2]]
+     IN  ArgVals(ex) = ArgVals(ey) => (ex.res = ey.res /\ ex.op = ey.op)
 =============================================================================
